@@ -141,3 +141,90 @@ Example real_pool_excludes_during_create :
   let s := pexec 1 0 [[PGet]; [PGet]; [PGet]] [0;0; 1;1; 2;2; 0; 1; 2] in
   (pcreated s, map ppcof (pthreads s)) = (1, [PIdle; PWaiting; PWaiting]).
 Proof. vm_compute. reflexivity. Qed.
+
+(* (d) TaskRunner whose task goroutine gives the slot back by a plain statement after task()
+   (only wg.Done is deferred): a panicking task keeps its slot for ever (seeded change C05-2). *)
+Definition no_release_on_panic_rstep (s : rstate) (x : nat) : option rstate :=
+  let N := length (rthreads s) in
+  if Nat.ltb x N then rstep s x
+  else
+    let k := x - N in
+    match nth_error (rtasks s) k with
+    | Some tk =>
+      match tst tk with
+      | TRunning =>
+        Some (mkRS (rcap s) (if tpanics tk then rc s else pred (rc s)) (pred (rwg s))
+                   (upd_nth (rtasks s) k (mkTask TDone (tpanics tk))) (rthreads s))
+      | _ => rstep s x
+      end
+    | None => None
+    end.
+
+(* n = 1: the only task panics and ends; nothing is live, Wait would return (wg = 0), yet the
+   slot is still taken and ScheduleImmediately on the idle runner answers Busy (result 0) *)
+Theorem no_release_on_panic_leak_refuted :
+  exists n scripts sched,
+    let s := run no_release_on_panic_rstep (rinit n scripts) sched in
+    (forall tk, In tk (rtasks s) -> tst tk = TDone) /\ rwg s = 0 /\ rc s = n /\ 0 < n /\
+    map rres (rthreads s) = [[1; 0]%Z].
+Proof.
+  exists 1, [[RSched true; RSchedNow false]], [0;0; 1;1; 0].
+  vm_compute. repeat split; auto. intros tk [<-|[]]. reflexivity.
+Qed.
+
+Example real_taskrunner_releases_on_panic :
+  let s0 := rexec 1 [[RSched true; RSchedNow false]] [0;0; 1;1] in
+  let s := rexec 1 [[RSched true; RSchedNow false]] [0;0; 1;1; 0] in
+  (rc s0, rc s, map rres (rthreads s), map tst (rtasks s)) = (0, 1, [[1; 1]%Z], [TDone; TSpawned]).
+Proof. vm_compute. reflexivity. Qed.
+
+(* (e) WorkerGroup.Start with the loop bound off by one (`i <= workers`) *)
+Definition one_more_gstep (panics : nat -> bool) (s : gstate) (x : nat) : option gstate :=
+  match x, gd s with
+  | O, GLoop =>
+    if Nat.leb (gi s) (gn s)
+    then Some (mkGS (gn s) (S (gi s)) (S (gwg s)) GLoop (gtasks s ++ [mkWT WSp (panics (gi s))]))
+    else Some (mkGS (gn s) (gi s) (gwg s) GWait (gtasks s))
+  | _, _ => gstep panics s x
+  end.
+
+Theorem one_more_worker_cap_exceeded_refuted :
+  exists n sched, n < grunning (run (one_more_gstep (fun _ => false)) (ginit n) sched).
+Proof. exists 2, [0;0;0;0;0; 1;2;3]. vm_compute. repeat constructor. Qed.
+
+Example real_workergroup_stops_at_n :
+  let s := gexec 2 (fun _ => false) [0;0;0;0;0; 1;2;3] in (grunning s, length (gtasks s), gd s) = (2, 2, GWait).
+Proof. vm_compute. reflexivity. Qed.
+
+(* (f) fx worker whose `<-pool` is not deferred: a panicking walk function keeps its slot *)
+Definition fx_no_release_on_panic_wstep (s : wstate) (x : nat) : option wstate :=
+  match x with
+  | S k =>
+    match nth_error (wtasks s) k with
+    | Some tk =>
+      match wst tk, wpanics tk with
+      | WRun, true =>   (* wg.Done() runs (deferred), the slot is not given back *)
+        Some (mkWS (wvar s) (wcap s) (wc s) (pred (wwg s)) (witems s) (wfailed s) (wd s)
+                   (upd_nth (wtasks s) k (mkWT WDn true)))
+      | _, _ => wstep s x
+      end
+    | None => None
+    end
+  | O => wstep s x
+  end.
+
+(* 1 worker, items [panic; ok]: after the first item no worker is live, the slot is still
+   taken and the dispatcher is blocked for ever with the second item in hand *)
+Theorem fx_no_release_on_panic_leak_refuted :
+  exists n items sched,
+    let s := run fx_no_release_on_panic_wstep (winit WFx n items) sched in
+    wlive s = 0 /\ wc s = n /\ 0 < n /\ wd s = DAcq (Some false) /\ fx_no_release_on_panic_wstep s 0 = None.
+Proof.
+  exists 1, [true; false], [0;0;0;0; 1;1; 0;0].
+  vm_compute. repeat split; auto.
+Qed.
+
+Example real_fx_releases_on_panic :
+  let s := wexec WFx 1 [true; false] [0;0;0;0; 1;1;1; 0;0;0;0; 2;2;2; 0;0;0] in
+  (map wst (wtasks s), wc s, wd s) = ([WDn; WDn], 0, DDone).
+Proof. vm_compute. reflexivity. Qed.
